@@ -162,6 +162,61 @@ def C09():
                 outside=["interleaved RLE order types", "segmentations other than the seven listed", "images larger than 18x2"])
 
 
+def C05():
+    jobs = [Kani("c05_per_twin", "vacuity twin", expect="fail", fail_desc="twin reached", timeout=400, mem_gb=6),
+            Kani("c05_mcs_twin", "vacuity twin", expect="fail", fail_desc="twin reached", timeout=400, mem_gb=6)]
+    for n, q in ((0, True), (1, True), (2, True), (4, True), (7, False)):
+        jobs.append(Kani("c05_per_total_n%d" % n, "every PER reader (length, integer, integer16 with any minimum, object identifier, octet stream, choice/enumerates) on every %d-byte input: Ok or Err, no panic, never reads past the input" % n,
+                         tiers=("quick", "thorough") if q else ("thorough",), bounds={"input_bytes": n}, symbolic=["input", "reader choice", "minimum", "expected oid/octets"],
+                         functions=["core::per::read_length", "core::per::read_integer", "core::per::read_integer_16", "core::per::read_object_identifier", "core::per::read_octet_stream", "core::per::read_choice", "core::per::read_enumerates"], timeout=900, mem_gb=8))
+    jobs.append(Kani("c05_per_numeric_string_total", "read_numeric_string for every 2-byte length header and minimum <= 8: no panic, allocation <= 0x7fff + 9", bounds={"header": 2, "minimum": "0..8"}, symbolic=["head", "minimum"],
+                     functions=["core::per::read_numeric_string"], timeout=600, mem_gb=6))
+    for n, q in ((0, True), (1, False), (3, True), (4, True), (6, False)):
+        jobs.append(Kani("c05_mcs_attach_confirm_n%d" % n, "read_attach_user_confirm on every %d-byte input: value or error, no panic; Ok => confirm header, success result, id = 1001 + wire value" % n,
+                         tiers=("quick", "thorough") if q else ("thorough",), bounds={"input_bytes": n}, symbolic=["input"], functions=["core::mcs::read_attach_user_confirm", "core::per::read_integer_16"], timeout=900, mem_gb=8))
+    for n, q in ((0, False), (4, True), (6, True), (8, False)):
+        jobs.append(Kani("c05_mcs_join_confirm_n%d" % n, "read_channel_join_confirm on every %d-byte input, any expected user/channel id: value or error, no panic" % n,
+                         tiers=("quick", "thorough") if q else ("thorough",), bounds={"input_bytes": n}, symbolic=["input", "user id", "channel id"], functions=["core::mcs::read_channel_join_confirm"], timeout=900, mem_gb=8))
+    for n, q in ((0, True), (2, False), (3, True), (6, True)):
+        jobs.append(Kani("c05_x224_read_n%d" % n, "the X.224 data header read (as x224::Client::read performs it on the TPKT payload) on every %d-byte payload: Ok or Err, no panic; Ok => 3 bytes consumed, separator 0x80" % n,
+                         tiers=("quick", "thorough") if q else ("thorough",), bounds={"payload_bytes": n}, symbolic=["payload"], functions=["core::x224::Client::read", "core::tpkt::Client::read"], timeout=900, mem_gb=8))
+    jobs.append(MirJob("c05_mir_gcc_map_index", "read_conference_create_response: no panicking map index (`HashMap[..]`) is reachable; missing mandatory blocks are reported through an Err path",
+                       mirjobs.no_reachable_call(r"^read_conference_create_response$", r"HashMap<.*> as Index<", "panicking HashMap index on the server block map", native=mirjobs.gcc_native_noblocks)))
+    jobs.append(MirJob("c05_mir_size_closures", "every size/skip closure of the layouts parsed during connection setup (licence preamble and blob, server network data, extended info): for every value of the wire field no arithmetic check fails and the requested buffer is <= 131072 bytes",
+                       mirjobs.size_closures(r"^(preamble|license_binary_blob|server_network_data|rdp_extended_infos)::", 131072, "connection setup")))
+    jobs.append(MirJob("c05_mir_gcc_block_length", "read_conference_create_response: the block-length subtraction cannot underflow for any declared length (header length = 4)",
+                       mirjobs.fn_asserts(r"^read_conference_create_response$", "GCC server block header", call_model=mirjobs.gcc_call_model, loop_bound=1, native=mirjobs.gcc_native)))
+    jobs.append(MirJob("c05_mir_per_integer16", "per::read_integer_16: value + minimum cannot overflow for any wire value and minimum (else it is refused)",
+                       mirjobs.fn_asserts(r"^read_integer_16$", "PER integer16", native=mirjobs.per_native)))
+    return Prop("C05", [("core/per.rs", "per.rs"), ("core/tpkt.rs", "tpkt.rs"), ("core/x224.rs", "x224.rs"), ("core/mcs.rs", "mcs.rs"), ("core/gcc.rs", "gcc.rs")], jobs, lowerings=["L2"],
+                assumptions=[S1, S2, S6, DEV, "L2 light error payloads", "E3: call results and loads are unconstrained symbols (over-approximation); Component::length() of a block header = 4 (decided by c04_gcc_block_header)"], stubs=[S1, S2],
+                text="Hostile bytes at the parser entries reachable during connection setup, decided two ways on the real code: (E1) every byte string up to 4-8 bytes at the PER readers, attach-user/channel-join confirms, X.224 data header and the head of the GCC response; (E3) every value of every wire field that becomes a buffer size or an arithmetic operand in the licence/GCC/PER layouts.",
+                note="NOT covered: the X.224 connection confirm (nested component), GCC block bodies, the BER connect-response (yasna), the licence body - CBMC does not terminate on size-dependent Component parses (DESIGN §2). Allocation proportionality is decided per size expression, not observed.",
+                technique="Kani/CBMC bounded model checking (SAT) of leaf parsers over all short inputs; MIR->SMT (z3 QF_BV) symbolic execution of size/arith kernels over all field values",
+                design_ref="DESIGN.md §4 C05",
+                outside=["x224 connection confirm parse", "GCC server block bodies", "BER connect-response", "licence message body", "inputs longer than 8 bytes at the leaf parsers"])
+
+
+def C06():
+    jobs = []
+    for n, q in ((0, False), (3, True), (6, True)):
+        jobs.append(Kani("c05_x224_read_n%d" % n, "the X.224 data header read (as x224::Client::read performs it on the TPKT payload) on every %d-byte payload: Ok or Err, no panic; Ok => 3 bytes consumed, separator 0x80" % n,
+                         tiers=("quick", "thorough") if q else ("thorough",), bounds={"payload_bytes": n}, symbolic=["payload"], functions=["core::x224::Client::read", "core::tpkt::Client::read"], timeout=900, mem_gb=8))
+    jobs.append(Kani("c13_h13a_all_headers", "tpkt::Client::read on every 4-byte header (slow-path and fast-path, all declared lengths): value or error, no panic, allocation = declared payload length <= 65531",
+                     bounds={"header_bytes": 4}, symbolic=["head: [u8;4]"], functions=["core::tpkt::Client::read", "model::link::Link::read"], timeout=400, mem_gb=6))
+    jobs.append(MirJob("c06_mir_mcs_read", "mcs::Client::read has no panicking arithmetic of its own on wire values (its integer reads go through per::read_integer_16/read_length, decided under C05); E1 does not finish on the whole function because of the channel HashMap lookup",
+                       mirjobs.fn_asserts(r"^mcs::<impl at src/core/mcs\.rs[^>]*>::read$", "MCS send-data-indication header", loop_bound=1)))
+    jobs.append(MirJob("c06_mir_size_closures", "every size/skip closure of the session-phase layouts (share control/data headers, demand-active, deactivate-all, capability set, fast-path update, bitmap data, colour pointer): for every value of the wire field no arithmetic check fails and the requested buffer is <= 131072 bytes",
+                       mirjobs.size_closures(r"^(share_control_header|share_data_header|ts_demand_active_pdu|ts_confirm_active_pdu|ts_deactivate_all_pdu|capability_set|ts_fp_update|ts_bitmap_data|ts_colorpointerattribute)::", 131072, "active session")))
+    return Prop("C06", [("core/tpkt.rs", "tpkt.rs"), ("core/x224.rs", "x224.rs")], jobs, lowerings=["L2"],
+                assumptions=[S1, S6, DEV, "L2 light error payloads", "E3: the wire field of each closure is an unconstrained symbol"], stubs=[S1],
+                text="Kernel of the property: (E3) for every layout of global.rs/capability.rs that turns a wire field into a buffer size or a skip decision, all 65536 (256) field values: no panicking arithmetic, bounded size; (E1) x224 / tpkt header parsing on every header / payload up to 6 bytes; (E3) mcs::Client::read's own arithmetic. These subtractions are where a hostile length crashes a session.",
+                note="NOT covered: the PDU parsers' control flow after the size computation (PDU::from_stream, DataPDU::from_pdu, capability parsing, fast-path update parsing, global::Client::read): size-dependent Component parses on which CBMC does not terminate (DESIGN §2).",
+                technique="MIR->SMT (z3 QF_BV, cvc5 cross-check) symbolic execution of size closures over all field values; Kani/CBMC bounded model checking of the TPKT/X.224 header parsers",
+                design_ref="DESIGN.md §4 C06",
+                outside=["PDU::from_stream and every parser above the MCS layer", "fast-path update parsing", "capability set parsing"])
+
+
 def C18():
     jobs = [Kani("c18_data_twin", "vacuity twin", expect="fail", fail_desc="twin reached", timeout=400, mem_gb=6)]
     for h, claim, q, unw in (
@@ -192,9 +247,9 @@ def C18():
                 outside=["records with size-dependent or skippable fields (Component::read/write with MessageOption::Size/SkipField: CBMC does not finish)", "nested containers", "BER/DER (yasna) structures", "GCC conference blocks", "Version::from table (known finding D14 is checked by c18_mir_version_table)"])
 
 
-PROPS = {"C08": C08, "C09": C09, "C13": C13, "C14": C14, "C18": C18, "C19": C19}
+PROPS = {"C05": C05, "C06": C06, "C08": C08, "C09": C09, "C13": C13, "C14": C14, "C18": C18, "C19": C19}
 
-MIR_PROPS = ["C08", "C13", "C14"]
+MIR_PROPS = ["C05", "C06", "C08", "C13", "C14"]
 
 _TODO = "not claimed yet: machinery for this property is still being built (see DESIGN.md §4 for the plan)"
 NOT_APPLICABLE = {
@@ -204,5 +259,5 @@ NOT_APPLICABLE = {
     "C15": "CHALLENGE -> AUTHENTICATE needs read_target_info (size idiom) and a 25-field emitter with three to_vec calls; neither is executable by the solver-based engines here",
     "C20": "thread interleavings, select(2) and OpenSSL record buffering are concurrency + FFI; Kani does not model them and no sequential kernel implies the property",
 }
-for _p in ["C01", "C02", "C04", "C05", "C06", "C07", "C12", "C16", "C17"]:
+for _p in ["C01", "C02", "C04", "C07", "C12", "C16", "C17"]:
     NOT_APPLICABLE.setdefault(_p, _TODO)
